@@ -7,6 +7,9 @@
  PLGATE   wherever construction asks `requires_vertex_links_at_completion()`, the true edge passes
           the success edge of the vertex-link (PL-manifold) validation before Ok;
  NODROP   the Delaunay verifiers drop no checker result (shared with C08).
+ POSTORIENT no constructor returns Ok after a flip repair driver succeeded (per-insertion or finalize
+          repair) without the geometric orientation of the cells having been re-validated — for every
+          topology guarantee (the rule and its gates are those of C08 POSTORIENT; found F15).
 Not decided: that the verifiers are themselves right (C04/C05), ball/convexity, the vertex-set and
 statistics clauses; Pseudomanifold gets no Level-3 gate at completion by design (noted)."""
 import flow
@@ -18,7 +21,8 @@ EXPLANATION = (
     "CERT: greatest fixed point over all bodies (closures included) returning Result<..DelaunayTriangulation..>: a body "
     "stays certified while every success exit is unreachable once the success edges of its calls to sound Delaunay "
     "verifiers (pure verdict functions that reach the four flip-predicate post-condition checkers or the brute-force "
-    "cell check and drop no result) or to other certified bodies are removed. Obligation: every exported constructor of "
+    "cell check, drop no result, and cannot themselves return Ok without a check having run — policy-gated helpers are "
+    "excluded by a second greatest fixed point) or to other certified bodies are removed. Obligation: every exported constructor of "
     "DelaunayTriangulation / DelaunayTriangulationBuilder is certified, separately under cfg(debug_assertions) on and "
     "off. PLGATE: must-pass-through from the true edge of requires_vertex_links_at_completion to Ok via "
     "validate_vertex_links. The numerical soundness of the verifiers is not decided.")
@@ -38,7 +42,10 @@ def run(ctx):
         for l in L4:
             ctx.anchor(cfg, l)
         S, off = gate.sound_validators(prog, lv, L4)
-        gates = {q for q in S if prog.bodies[q].kind != 'closure'}
+        # a verifier certifies only if it cannot answer Ok without having run a check: policy-gated helpers such
+        # as maybe_check_after_insertion (Ok when the check policy does not fire) are not certifiers
+        gates, skipped = gate.unconditional_validators(prog, lv, S, L4, zero_counters=(tables.T + 'number_of_cells',))
+        ctx.info.setdefault('conditional_verifiers_not_used_as_certifiers', {})[cfg] = sorted(skipped)
         for q, bad in sorted(off.items()):
             b = prog.bodies[q]
             ctx.ob('NODROP', b.root or q, cfg, False,
@@ -85,6 +92,10 @@ def run(ctx):
                    'from the true edge of requires_vertex_links_at_completion: ' + gate.describe(b, r),
                    site='%s:%d' % (b.file, b.line))
         ctx.floor('construction sites consulting requires_vertex_links_at_completion', 2, m, cfg)
+    import c08
+    for cfg in ctx.cfgs:
+        prog = ctx.prog(cfg)
+        c08._postorient(ctx, cfg, prog, gate.Leaves(prog), constructors=True)
     ctx.note('TopologyGuarantee::Pseudomanifold has no Level-3 gate at completion (relies on ValidationPolicy::DebugOnly, '
              'i.e. nothing in release): observation, not a rule')
     return ctx.finish(EXPLANATION)
